@@ -110,6 +110,8 @@ def tag(v):
         return "neg-inf"
     if v == -5e-324:
         return "tiny-negative"
+    if isinstance(v, float) and v == 0 and math.copysign(1, v) < 0:
+        return "-0.0"
     if v < 0:
         return "negative"
     return repr(v)
@@ -125,11 +127,30 @@ def dec(s):
 
 INVALID_CAT = [-1.0, -5e-324, NAN, INF, -INF, 1 + 1e-9, "1", 1j, None]
 VALID_CAT = [True, False, 0.0, 0, 1.0, 1, 0.5, 0.25, 0.3, 5e-324, 2 ** -52, 1.5, 2.0, 3, 0.1, 0.49, 0.6, 1e-9]
+# the doubles next to every threshold a guard compares with (0, 1, 1/2, 2^-52): tolerance-prone rewrites of a guard
+# (`isclose`, `<` for `<=`, rounding) change the verdict exactly there
+NEIGHBOURS = [-0.0, -1e-300, 1 + 2 ** -52, 1 - 2 ** -53, 0.5 + 2 ** -53, 0.5 - 2 ** -54, 2 ** -52 + 2 ** -104,
+              2 ** -52 - 2 ** -105, 2 ** -51, 1e-12, -1e-12]
+VALID_CAT = VALID_CAT + NEIGHBOURS
 CAT = INVALID_CAT + VALID_CAT
 
 
 def is_real(v):
     return isinstance(v, Real)
+
+
+def near_inversions():
+    """(lower, upper) with lower > upper by a RELATIVE amount 1e-12 … 1e-3 (and by one ulp) at magnitudes 1e-9 … 1e12:
+    inverted bounds that a tolerance-based comparison would wave through"""
+    out = []
+    for mag in (1e-9, 1e-3, 1.0, 100.0, 1.6e9, 1e12, -1.0, -1.6e9):
+        for rel in (1e-12, 1e-9, 1e-6, 5e-6, 1e-3):
+            lo = mag + abs(mag) * rel
+            if lo > mag:
+                out.append((lo, mag))
+        out.append((math.nextafter(mag, INF), mag))
+    out += [(100.0005, 100.0), (1600005000.0, 1600000000.0), (5e-324, 0.0), (0.0, -5e-324), (1e-9, 0.0), (0.0, -0.0)]
+    return out
 
 
 # ------------------------------------------------------------------------------------------------ mechanisms
@@ -463,7 +484,7 @@ def mech_cases(ctx):
     delta_grid = [0, 0.0, 0.1, 0.5, 0.6, 1.0, 1.1, NAN, "1", None, -5e-324]
     bounds_grid = [(0, 1), (1, 0), (1, 1), (NAN, 1), (0, NAN), (-INF, INF), (INF, -INF), (0.5, 1.5), (0.3, 1), ("0", 1),
                    (None, 1), (0.0, 1.0), (1.0, 0.0), (0.5000000001, 3), (2, 1.5), (True, 3), (0, 1j), (0, 10 ** 9), (1j, 0.3),
-                   (1j, 2), ('1', 0.3), (0.3, None)]
+                   (1j, 2), ('1', 0.3), (0.3, None)] + near_inversions()[::3] + [(100.0005, 100.0), (math.nextafter(3.0, INF), 3.0)]
     for cls in SPEC:
         cp = ctor_params(cls)
         for p in cp:
@@ -668,6 +689,27 @@ def check_validation(ctx):
             if is_real(lo) and is_real(up) and lo > up:
                 inv = ("bounds", "lower-above-upper")
             recs.append(("check_bounds", (lo, up), call_kind(V.check_bounds, (lo, up))[0], inv))
+    for lo, up in near_inversions():
+        lines.append(f"bounds {tok(lo)} {tok(up)}")
+        recs.append(("check_bounds", (lo, up), call_kind(V.check_bounds, (lo, up))[0],
+                     ("bounds", "lower-above-upper(near)") if lo > up else None))
+    # per-feature bounds: ONE (nearly) inverted feature among valid ones, at every position
+    for lo, up in near_inversions()[::2] + [(2.0, 1.0)]:
+        for d_ in (2, 3):
+            for pos in range(d_):
+                lows = [0.0] * d_
+                ups = [1.0] * d_
+                lows[pos], ups[pos] = lo, up
+                kind = call_kind(V.check_bounds, (np.array(lows), np.array(ups)), d_)[0]
+                ctx.case(("check_bounds[array]", enc(lo), enc(up), d_, pos))
+                if lo > up and kind not in ("typeError", "valueError"):
+                    ctx.violation("C13:check_bounds:bounds[feature]:lower-above-upper(near):accepted",
+                                  f"check_bounds(({lows}, {ups}), shape={d_}) with feature {pos} inverted -> {kind}",
+                                  {"unit": "check_bounds[array]", "args": [enc(lows), enc(ups), enc(d_)]})
+                elif (kind == "ok") != (not lo > up):
+                    ctx.disagree("validation.check_bounds[array]", {"lower": lows, "upper": ups}, "ok", kind)
+                else:
+                    ctx.trace_ok()
     X = np.array([[3.0, 4.0], [0.3, 0.4]])
     for c in CAT:
         lines.append(f"clip clip={tok(c)}")
@@ -789,9 +831,100 @@ def check_accountant(ctx):
                           f"{fn}({', '.join(enc(a) for a in args)}) raised {k0} but the accountant changed from "
                           f"{states[0]} to {states[1]}", data)
         if model != kind:
+            # the budget comparison itself is C04's: the model adds the spends exactly, the code in doubles; a decision
+            # within rounding of the ceiling may legitimately differ
+            if {model.split()[0], k0} == {"ok", "budgetError"} and is_real(args[0]) and args[0] != INF:
+                near = False
+                if fn.split(".")[-1] in ("check", "spend") and is_real(args[3]):
+                    prior_eps = {1.0: 0.25, 2.0: 1.0}.get(args[0], 0.0) if args[2] else 0.0
+                    near = abs(prior_eps + args[3] - args[0]) <= 1e-12 * args[0]
+                elif fn == "BudgetAccountant(spent_budget)":
+                    tot = 0.0
+                    for e_, _ in args[2]:
+                        if is_real(e_) and e_ == e_:
+                            tot += e_
+                            near = near or abs(tot - args[0]) <= 1e-12 * args[0]
+                if near:
+                    ctx.boundary_skipped += 1
+                    continue
             ctx.disagree("accountant." + fn, data, model, kind)
         else:
             ctx.trace_ok()
+    stateful_accountant(ctx)
+
+
+BAD_ITEMS = [(-0.5, 0.0), (-5e-324, 0), (-0.0 - 1e-300, 0.0), (1.0, -0.2), (1.0, -5e-324), (0, 0), (0.0, 0.0), ("1.0", 0),
+             (1.0, "0"), (NAN, 0), (1.0, NAN), (1.0, 1 + 2 ** -52), (1.0, 1 + 1e-9), (None, 0), (1.0, None), (1j, 0), (-INF, 0)]
+GOOD_ITEMS = [(1.0, 0.0), (0.25, 0.125), (2.0, 0.0), (0.5, 0.25), (True, 0), (5e-324, 0.0), (0.0, 1e-9)]
+
+
+def stateful_accountant(ctx):
+    """accountants ALREADY HOLDING 0..5 spends x every validating entry point x an invalid item at EVERY position of a
+    caller-supplied list (no prefix of the list may be trusted because the accountant has recorded that many spends)"""
+    BA = dp.BudgetAccountant
+    r = ctx.fork("stateful-accountant")
+    lines, recs = [], []
+    for k in range(6):
+        for ce, cd in ((INF, 1.0), (50.0, 0.9)):
+            try:
+                base = BA(ce, cd, spent_budget=[(0.25, 0.0625)] * k)
+            except Exception as e:  # noqa
+                ctx.disagree("accountant.stateful.base", {"k": k, "ceiling": [ce, cd]}, "ok", f"raised {type(e).__name__}: {e}")
+                continue
+            lists = [[g] for g in GOOD_ITEMS[:3]] + [list(GOOD_ITEMS[:n]) for n in (2, 3, k, k + 1) if n > 0]
+            for n in sorted({1, 2, 3, max(k, 1), k + 1, k + 2}):
+                for pos in range(n):
+                    for bad in (BAD_ITEMS if (n <= 3 or pos in (0, k - 1, k, n - 1)) else BAD_ITEMS[:4]):
+                        lst = [r.choice(GOOD_ITEMS) for _ in range(n)]
+                        lst[pos] = bad
+                        lists.append(lst)
+            for lst in lists:
+                for slack in (None, 0.0, 0.5):
+                    if slack is not None and (len(lists) > 40 and r.u01() > 0.15):
+                        continue
+                    toks = " ".join(f"{tok(e)} {tok(d)}" for e, d in lst)
+                    before = acc_state(base)
+                    kw = {} if slack is None else {"slack": slack}
+                    kind = call_kind(lambda: base.total(spent_budget=list(lst), **kw))[0]
+                    inv = None
+                    for i, (e, d) in enumerate(lst):
+                        r_ = eps_delta_invalid(e, d)
+                        if r_:
+                            inv = (f"spent_budget[{i} of {len(lst)}; {k} recorded].{r_[0]}", r_[1])
+                            break
+                    lines.append(f"acctotal {ext_tok(cd)} {'-' if slack is None else tok(slack)} {toks}")
+                    recs.append(("BudgetAccountant.total(spent_budget)", (ce, cd, k, lst, slack), kind, inv,
+                                 (before, acc_state(base))))
+            # total(slack=…), slack setter, check, spend, remaining(k) on the k-spend accountant
+            for sl in [-5e-324, -0.1, NAN, cd + 1e-9, math.nextafter(cd, INF), "0.1", None, 1j, 0.0, cd, cd / 2]:
+                if sl is None:
+                    continue
+                kind = call_kind(lambda: base.total(slack=sl))[0]
+                inv = ("slack", tag(sl)) if (not is_real(sl) or not 0 <= sl <= cd) else None
+                lines.append(f"acctotal {ext_tok(cd)} {tok(sl)}")
+                recs.append(("BudgetAccountant.total(slack)", (ce, cd, k, sl), kind, inv, None))
+            for e, d in BAD_ITEMS:
+                for op in ("check", "spend"):
+                    before = acc_state(base)
+                    kind = call_kind(getattr(base, op), e, d)[0]
+                    lines.append(f"ced 0 epsilon={tok(e)} delta={tok(d)}")
+                    recs.append((f"BudgetAccountant.{op}[{k} recorded]", (ce, cd, k, e, d), kind, eps_delta_invalid(e, d),
+                                 (before, acc_state(base))))
+    outs = leanio.run_driver("Validation", lines)
+    for (fn, args, kind, inv, states), model in zip(recs, outs):
+        ctx.case((fn, enc(args)) if kind != "ok" else None)
+        data = {"unit": fn, "args": [enc(a) for a in args]}
+        if inv is not None and kind not in ("typeError", "valueError", "budgetError"):
+            ctx.violation(f"C13:{fn.split('[')[0]}:{inv[0].split('.')[-1]}:{inv[1]}:accepted",
+                          f"{fn} on an accountant with ceiling ({args[0]}, {args[1]}) holding {args[2]} spends, "
+                          f"arguments {enc(args[3:])}: invalid {inv[0]} ({inv[1]}) -> {kind}", data)
+        if states is not None and repr(states[0]) != repr(states[1]):
+            ctx.violation(f"C13:{fn.split('[')[0]}:state-changed", f"{fn}{enc(args)} changed the accountant", data)
+        if model != kind and not (model == "ok" and kind == "budgetError"):
+            ctx.disagree("accountant." + fn, data, model, kind)
+        else:
+            ctx.trace_ok()
+    ctx.count("stateful_accountant_cases", len(recs))
 
 
 # ------------------------------------------------------------------------------------------------ tools and estimators
@@ -840,7 +973,9 @@ def model_calls():
 
 
 EPS_CAT = INVALID_CAT[:3] + ["1", 1j, None, 0, 0.0, False, -INF, INF, 1.0, True, 0.5, 5e-324, 1, 3]
-BOUNDS_CAT = [(0, 1), (1, 0), (1.0, 0.0), (INF, -INF), (0.0, 1.0), (0.25, 0.75), (True, 0), (2, 0.5)]
+BOUNDS_CAT = [(0, 1), (1, 0), (1.0, 0.0), (INF, -INF), (0.0, 1.0), (0.25, 0.75), (True, 0), (2, 0.5),
+              (100.0005, 100.0), (1600005000.0, 1600000000.0), (math.nextafter(1.0, INF), 1.0), (1e-9 * (1 + 1e-6), 1e-9),
+              (0.5 + 1e-12, 0.5), (1e12 * (1 + 1e-9), 1e12)]
 
 
 def eps_invalid(e):
@@ -1019,6 +1154,8 @@ def replay(ctx, data):
         return call_kind(dp.utils.Budget, *args)[0] == "ok"
     if fn == "check_bounds":
         return call_kind(V.check_bounds, tuple(args))[0] == "ok"
+    if fn == "check_bounds[array]":
+        return call_kind(V.check_bounds, (np.array(args[0]), np.array(args[1])), args[2])[0] == "ok"
     if fn == "clip_to_norm":
         return call_kind(V.clip_to_norm, np.ones((2, 2)), args[0])[0] == "ok"
     if fn == "BudgetAccountant":
@@ -1034,6 +1171,19 @@ def replay(ctx, data):
         if sig.endswith("recorded"):
             return k != "ok" and repr(before) != repr(acc_state(a))
         return k == "ok"
+    if fn.startswith("BudgetAccountant.total(spent_budget)"):
+        ce, cd, k, lst, slack = args
+        a = dp.BudgetAccountant(ce, cd, spent_budget=[(0.25, 0.0625)] * k)
+        kw = {} if slack is None else {"slack": slack}
+        return call_kind(lambda: a.total(spent_budget=[tuple(x) for x in lst], **kw))[0] == "ok"
+    if fn.startswith("BudgetAccountant.total(slack)"):
+        ce, cd, k, sl = args
+        a = dp.BudgetAccountant(ce, cd, spent_budget=[(0.25, 0.0625)] * k)
+        return call_kind(lambda: a.total(slack=sl))[0] == "ok"
+    if "[" in fn and fn.split("[")[0] in ("BudgetAccountant.check", "BudgetAccountant.spend"):
+        ce, cd, k, e, dd = args
+        a = dp.BudgetAccountant(ce, cd, spent_budget=[(0.25, 0.0625)] * k)
+        return call_kind(getattr(a, fn.split("[")[0].split(".")[1]), e, dd)[0] == "ok"
     if fn == "BudgetAccountant.slack":
         a = dp.BudgetAccountant(1.0, 0.5)
         return call_kind(lambda v: setattr(a, "slack", v), args[0])[0] == "ok"
